@@ -93,6 +93,11 @@ type Byz struct {
 	cmu      sync.Mutex
 	counters map[string]int
 	Relayed  atomic.Int64 // relays received from the victim
+	// everything the peer was sent by relay RPCs (bounded)
+	rmu         sync.Mutex
+	relHeaders  []types.BlockHeader
+	relOutlines []gateway.V2BlockOutline
+	relSets     []RelayedSet
 	// LastFault / LastHangUp: unix nanoseconds of the last faulted write / hang-up
 	LastFault  atomic.Int64
 	LastHangUp atomic.Int64
@@ -358,16 +363,31 @@ func (b *Byz) handle(s *gateway.Stream, conn *flushConn) {
 		if s.ReadRequest(r) == nil {
 			b.Count("recv:RelayV2Header", 1)
 			b.Relayed.Add(1)
+			b.rmu.Lock()
+			if len(b.relHeaders) < 256 {
+				b.relHeaders = append(b.relHeaders, r.Header)
+			}
+			b.rmu.Unlock()
 		}
 	case *gateway.RPCRelayV2BlockOutline:
 		if s.ReadRequest(r) == nil {
 			b.Count("recv:RelayV2BlockOutline", 1)
 			b.Relayed.Add(1)
+			b.rmu.Lock()
+			if len(b.relOutlines) < 256 {
+				b.relOutlines = append(b.relOutlines, r.Block)
+			}
+			b.rmu.Unlock()
 		}
 	case *gateway.RPCRelayV2TransactionSet:
 		if s.ReadRequest(r) == nil {
 			b.Count("recv:RelayV2TransactionSet", 1)
 			b.Relayed.Add(1)
+			b.rmu.Lock()
+			if len(b.relSets) < 64 {
+				b.relSets = append(b.relSets, RelayedSet{Index: r.Index, Transactions: r.Transactions})
+			}
+			b.rmu.Unlock()
 		}
 	default:
 		b.Count("recv:unknown", 1)
@@ -462,6 +482,19 @@ func (b *Byz) HonestTransactions(r *gateway.RPCSendTransactions) bool {
 }
 
 // ---- calls issued by the Byzantine peer --------------------------------------
+
+// A RelayedSet is a transaction set received through RelayV2TransactionSet.
+type RelayedSet struct {
+	Index        types.ChainIndex
+	Transactions []types.V2Transaction
+}
+
+// RelayLog returns what the peer received through relay RPCs.
+func (b *Byz) RelayLog() ([]types.BlockHeader, []gateway.V2BlockOutline, []RelayedSet) {
+	b.rmu.Lock()
+	defer b.rmu.Unlock()
+	return append([]types.BlockHeader(nil), b.relHeaders...), append([]gateway.V2BlockOutline(nil), b.relOutlines...), append([]RelayedSet(nil), b.relSets...)
+}
 
 // ErrNotConnected is returned when the peer has no live transport.
 var ErrNotConnected = errors.New("byzantine peer is not connected")
